@@ -19,6 +19,9 @@ func init() {
 }
 
 func runC09(c *eng.Ctx) {
+	// (shared with C08/C10) a reader recognises a replaced or removed segment whatever wraps the error on its way up
+	ruleSentinelIdentity(c, "R14.6", []string{cl + "(*Reader).ReadMessage", cl + "(*ReverseReader).ReadMessage"}, "the reader does not notice that the segment it was reading was replaced (compaction, truncation) or removed (retention): it fails instead of re-positioning itself and carrying on")
+
 	c.Rule("R08.6", "K4")
 	ruleReverseScanRecoversFromDeleted(c)
 	c.Rule("R09.8", "K1")
